@@ -1,7 +1,8 @@
 """C12 — timezone settings preserve the instant; awareness follows the setting."""
+import calendar
 from datetime import datetime, timedelta, timezone
 
-from ..gen.common import rng, table_offset_of, zone_pools
+from ..gen.common import dst_edges, rng, table_offset_of, zone_pools
 from ..hooks import AnchorCounter
 from ..monitors import PathTap
 from ..util import iso, parse_iso
@@ -97,11 +98,40 @@ def pick_zone(rnd, iana_cycle=None):
     return rnd.choice(dual)
 
 
+_EDGES = {}
+
+
+def near_edges(zone):
+    if zone is None:
+        return []
+    if zone not in _EDGES:
+        try:
+            _EDGES[zone] = dst_edges(zone, 1950, 2037)
+        except Exception:
+            _EDGES[zone] = []
+    return _EDGES[zone]
+
+
 def gen_case(rnd, a_iana=None, b_iana=None):
-    c = {"A": pick_zone(rnd, a_iana), "B": pick_zone(rnd, b_iana) if rnd.random() < 0.8 else None,
-         "d": iso(datetime(rnd.randrange(1950, 2038), rnd.randrange(1, 13), rnd.randrange(1, 29), rnd.randrange(24),
-                           rnd.randrange(60), rnd.randrange(60))),
-         "aware": rnd.choice([True, False, None]), "kind": rnd.choice(KINDS)}
+    A = pick_zone(rnd, a_iana)
+    B = pick_zone(rnd, b_iana) if rnd.random() < 0.8 else None
+    y, m = rnd.randrange(1950, 2038), rnd.randrange(1, 13)
+    d = datetime(y, m, rnd.randrange(1, calendar.monthrange(y, m)[1] + 1), rnd.randrange(24), rnd.randrange(60), rnd.randrange(60))
+    if rnd.random() < 0.25:
+        # a local time close to (but, after the generator's rejection step, outside) a clock change of A or B:
+        # minutes before the gap/fold opens or after it closes, where a wrong is_dst guess or a stale offset shows
+        for z in (A, B):
+            edges = near_edges(z)
+            if edges:
+                t, before, after = rnd.choice(edges)
+                lo, hi = sorted([t + before, t + after])
+                d = rnd.choice([lo - timedelta(minutes=rnd.choice([1, 30, 59, 61, 121])),
+                                hi + timedelta(minutes=rnd.choice([0, 1, 30, 59, 61, 121]))]).replace(microsecond=0)
+                if z == B and B is not None:
+                    # d was chosen as wall time of B; keep it as a wall time in A all the same (any valid local time will do)
+                    pass
+                break
+    c = {"A": A, "B": B, "d": iso(d), "aware": rnd.choice([True, False, None]), "kind": rnd.choice(KINDS)}
     if c["kind"] == "abs_strtz":
         c["str_off"] = rnd.choice(supported_offsets())
     if c["kind"] == "rel":
